@@ -538,6 +538,60 @@ def directed_cases(ctx):
                     ctx.violation('a recorded call did not get its own value back (texts that differ only before a normalisation)', dict(w, recorded=repr(live[1])[:150], replayed=repr(got[1])[:150]))
                 if not both and got[1][0] != 'missing':
                     ctx.violation('a call that was never recorded was answered with the value of a different call', dict(w, answered=repr(got[1])[:150]))
+    # ---- two-parameter alias templates whose resolved values contain text that looks like a placeholder; captured-by-position arguments
+    #      left to their default while a later captured argument is passed by keyword
+    from playback.tape_recorder import CapturedArg
+    for variant in ('placeholder_in_value', 'placeholder_in_value_reversed', 'omitted_positional_then_keyword'):
+        cas = InMemoryTapeCassette()
+        rec = TapeRecorder(cas)
+        rec.enable_recording()
+        state = {}
+        backend = {'calls': 0}
+        if variant == 'omitted_positional_then_keyword':
+            calls = [(('stock',), {'include_deleted': False}), (('stock',), {'include_deleted': True}), (('stock', 5), {'include_deleted': True})]
+            deco = rec.intercept_input('inventory.lookup', capture_args=[CapturedArg(1, 'table'), CapturedArg(2, 'limit'), CapturedArg(None, 'include_deleted')])
+        else:
+            pairs = [('/users/{id}', 5), ('/users/5', 5), ('{id}', '{route}'), ('{route}', 5)]
+            if variant.endswith('reversed'):
+                pairs.reverse()
+            calls = [((r, i), {}) for r, i in pairs]
+            deco = rec.intercept_input('http.get.{route}.{id}', alias_params_resolver=lambda self, route, id: {'route': route, 'id': id}, capture_args=[])
+
+        class Client(object):
+            @deco
+            def fetch(self, *a, **k):
+                backend['calls'] += 1
+                return ['answer for', repr((a, sorted(k.items())))]
+
+            @rec.operation()
+            def run(self):
+                out = []
+                for a, k in calls:
+                    try:
+                        out.append(self.fetch(*a, **k))
+                    except RecordingKeyError:
+                        out.append('missing')
+                state['got'] = out
+        Client().run()
+        live = state['got']
+        w = {'directed': variant}
+        ctx.case(w)
+        ctx.count('placeholder_and_omitted_argument_cases')
+        try:
+            rid = cas.get_last_recording_id()
+            cas.get_recording(rid)
+        except Exception:
+            ctx.count('directed_cases_not_saved')          # (a key that cannot be built discards the recording: nothing to replay)
+            continue
+        backend['calls'] = 0
+        rec.play(rid, lambda recording: Client().run())
+        ctx.count('replayed_calls_judged', len(calls))
+        if backend['calls']:
+            ctx.violation('an intercepted input body ran during replay', w)
+        if state['got'] != live:
+            bad = [i for i, (x, y) in enumerate(zip(state['got'], live)) if x != y]
+            ctx.violation('a saved recording answers a call with the value recorded for a different call (calls with different resolved aliases / captured '
+                          'arguments share a key)', dict(w, call=repr(calls[bad[0]])[:120], recorded=repr(live[bad[0]])[:120], replayed=repr(state['got'][bad[0]])[:120]))
     # ---- receivers that are not called self
     for variant in range(4):
         cas = InMemoryTapeCassette()
